@@ -39,6 +39,19 @@ class Wrapped:
     def __add__(self, o):
         return Wrapped("add", self, o)
 
+    __radd__ = __add__
+
+    def __sub__(self, o):
+        return Wrapped("sub", self, o)
+
+    def __rsub__(self, o):
+        return Wrapped("sub", o, self)
+
+    def __mul__(self, o):
+        return Wrapped("mul", self, o)
+
+    __rmul__ = __mul__
+
     def __repr__(self):
         return "%s(%s)" % (self.op, ", ".join(map(repr, self.args)))
 
@@ -74,6 +87,8 @@ class KernelSym(Evaluator):
         r = self.tree.resolve_name(self.fi.module, node.id)
         if isinstance(r, tuple) and r[0] == "ext":
             return ("ext", r[1])
+        if hasattr(r, "node") and hasattr(r, "qual") and isinstance(r.node, ast.FunctionDef):
+            return ("pkg", r)
         raise Unsupported("name %s" % node.id)
 
     def ev_Attribute(self, node):
@@ -123,9 +138,14 @@ class KernelSym(Evaluator):
         return super().ev_index(s)
 
     def binop(self, node, op, a, b):
+        if isinstance(op, ast.FloorDiv):
+            return Wrapped("floordiv", a, b)
+        if isinstance(op, ast.Mod):
+            return Wrapped("mod", a, b)
         if isinstance(a, Wrapped) or isinstance(b, Wrapped):
-            if isinstance(op, ast.Add):
-                return Wrapped("add", a, b)
+            name = {ast.Add: "add", ast.Sub: "sub", ast.Mult: "mul"}.get(type(op))
+            if name:
+                return Wrapped(name, a, b)
             raise Unsupported("arithmetic on a clamped value")
         return super().binop(node, op, a, b)
 
@@ -198,12 +218,30 @@ class KernelSym(Evaluator):
                     return "nan"
                 if d in ("numba.prange",):
                     return ("range",) + tuple(args)
+                if d in ("numba.get_num_threads", "numba.np.ufunc.parallel.get_num_threads"):
+                    return Poly.sym("nthreads")
+            if func[0] == "pkg":
+                # a package helper (e.g. an index-range function factored out of the kernel): inlined
+                callee = func[1]
+                pn_ = [a.arg for a in callee.node.args.args]
+                env = dict(zip(pn_, args))
+                env.update(kwargs)
+                if len(env) != len(pn_):
+                    raise Unsupported("call %s: arguments do not bind" % norm(node.func))
+                sub = KernelSym(self.tree, callee, env, self.none_axes)
+                try:
+                    sub.exec_block(callee.node.body)
+                except ReturnValue as r:
+                    if sub.stores:
+                        raise Unsupported("helper %s stores into an array" % callee.qual)
+                    return r.value
+                return None
         raise Unsupported("call %s" % norm(node.func))
 
     def exec_stmt(self, st):
         if isinstance(st, ast.For):
             it = self.ev(st.iter)
-            if not (isinstance(it, tuple) and it[0] == "range" and isinstance(st.target, ast.Name)):
+            if not (isinstance(it, tuple) and it[0] == "range" and isinstance(st.target, ast.Name)) or len(it) > 3:
                 raise Unsupported("loop %s" % norm(st.iter))
             lo, hi = (Poly.const(0), it[1]) if len(it) == 2 else (it[1], it[2])
             self.loops.append((st.target.id, lo, hi))
@@ -260,3 +298,58 @@ def run_kernel(tree, ndim_mode=3):
     except ReturnValue as r:
         ev.returned = r.value
     return fi, ev, env
+
+
+# =============================================================================== iteration space of the cell loop(s)
+def concrete(e, vals):
+    """Evaluate a loop-bound expression (Poly / Wrapped / int) with integer values for its symbols."""
+    if isinstance(e, bool):
+        raise Unsupported("boolean bound")
+    if isinstance(e, (int, float)):
+        return e
+    if isinstance(e, Poly):
+        missing = [s_ for s_ in e.symbols() if s_ not in vals]
+        if missing:
+            raise Unsupported("loop bound depends on %s" % missing)
+        v = e.evaluate(vals)
+        return int(v) if float(v).is_integer() else float(v)
+    if isinstance(e, Wrapped):
+        a = [concrete(x, vals) for x in e.args]
+        if e.op == "int":
+            return int(a[0])
+        if e.op == "max":
+            return max(a)
+        if e.op == "min":
+            return min(a)
+        if e.op == "floordiv":
+            if a[1] == 0:
+                raise ZeroDivisionError
+            return a[0] // a[1]
+        if e.op == "mod":
+            return a[0] % a[1]
+        if e.op == "add":
+            return a[0] + a[1]
+        if e.op == "sub":
+            return a[0] - a[1]
+        if e.op == "mul":
+            return a[0] * a[1]
+        if e.op == "abs":
+            return abs(a[0])
+    raise Unsupported("loop bound %r" % (e,))
+
+
+def cell_iteration_space(cell_loops, ncells_sym, ncells, nthreads):
+    """All values taken by the innermost cell-loop variable, in nesting order, for concrete sizes."""
+    out = []
+
+    def rec(i, vals):
+        if i == len(cell_loops):
+            out.append(vals[cell_loops[-1][0]])
+            return
+        var, lo, hi = cell_loops[i]
+        for x in range(int(concrete(lo, vals)), int(concrete(hi, vals))):
+            v2 = dict(vals)
+            v2[var] = x
+            rec(i + 1, v2)
+    rec(0, {ncells_sym: ncells, "nthreads": nthreads})
+    return out
